@@ -241,6 +241,16 @@ def run(ctx: Ctx) -> None:
     ctx.notes.update(abstract_cases_total=total, observed_ok=nok)
     if nok < 500:
         raise MachineryError(f"vacuous run: only {nok} operations succeeded")
+    # the declared use holds while another thread builds the key's lazily built JWK view: every one-preemption schedule of
+    # (first view of a use=sig key || offering that key for encryption), deterministic scheduler of C20
+    from . import c20
+    sp = [(k, a, b, 1, ctx.seed, 20 if ctx.tier == "thorough" else 6) for k in ("EC:P-256", "oct256")
+          for a, b in (("sigkey_view", "sigkey_misuse"), ("sigkey_misuse", "sigkey_misuse"))]
+    for (kind, a, b, na, nb), n, found in pmap(c20.explore, sp, chunksize=1, procs=4):
+        ctx.evaluations += n
+        ctx.nontrivial.add(f"sched:{kind}:{a}|{b}")
+        for pr, pre, first in found[:3]:
+            ctx.violation(f"keyfit:threads {a}||{b} [{kind}] -> {pr.split(':', 1)[-1].strip()[:70]}", {"kind": kind, "ops": [a, b], "preempts": pre, "first": first, "problem": pr})
     # B2: every successful call of the repository's own test-suite that was given a single key object was given a suitable one
     # (KeyFit.tla layer D instantiated inside TraceApi.tla and evaluated by TLC on the recorded key)
     from .c05 import trace_api
@@ -256,6 +266,13 @@ def run(ctx: Ctx) -> None:
 
 def replay(ctx: Ctx, rec: dict) -> None:
     _init_worker()
+    if "ops" in rec:
+        from . import c20
+        problems, _ = c20.run_schedule(rec["kind"], rec["ops"], [tuple(p) for p in rec["preempts"]], rec["first"])
+        print("ops", rec["ops"], "preempts", rec["preempts"], "-> problems now:", problems)
+        if problems:
+            ctx.violation(rec["signature"], {"problems": problems})
+        return
     o = run_case((rec["case"], 0))
     print(json.dumps(rec["case"]), "allowed", rec.get("allowed"), "observed now:", o)
     if o.split(":")[0] not in rec.get("allowed", []):
